@@ -12,11 +12,11 @@ RULE = ("fault model over both real files: (T) truncation points (quick: every p
         "ids, cache[id] and source.for_id for every id; distinct key = (fault kind, field id hit, outcome class)")
 ASSUMPTIONS = ["outcome oracle: completed or InvalidPyodaDataError; promptness decided on executed-line counts (sys.monitoring), never on wall time", "RLIMIT_AS of the worker as memory ceiling"]
 MIN_NT = {"quick": 30, "thorough": 60}
-REQUIRED = {"any": ["cases", "loads_ok", "loads_rejected", "zones_fetched"]}
+REQUIRED = {"any": ["cases", "loads_ok", "loads_rejected", "zones_fetched", "structured_alias_faults", "structured_rule_faults", "structured_name_faults"]}
 EXHAUSTIVE = {"thorough": True}
 
 VALS = (0x00, 0x01, 0x7F, 0x80, 0xFF)
-CASE_ALARM_S = 60
+CASE_ALARM_S = 30
 MEM_CEILING = 2 << 30
 
 
@@ -42,6 +42,7 @@ def shards(tier, seed):
                     {"name": f"{f}:varint-inflation", "file": f, "mode": "T-fields", "sub": "V"}]
             out += [{"name": f"{f}:seeded:{i}", "file": f, "mode": "seeded", "n": 130} for i in range(6)]
             out += [{"name": f"{f}:carrier:{i}", "file": f, "mode": "carrier", "zones": 4, "vals": 2} for i in range(6)]
+            out += [{"name": f"{f}:structured:{sub}", "file": f, "mode": "structured", "sub": sub, "n": 30} for sub in "ARP"]
         else:
             k = 48; step = (n + k - 1) // k
             out += [{"name": f"{f}:T:{i}", "file": f, "mode": "T", "lo": i * step, "hi": min(n + 1, (i + 1) * step)} for i in range(k)]
@@ -49,6 +50,7 @@ def shards(tier, seed):
                     {"name": f"{f}:varint-inflation", "file": f, "mode": "T-fields", "sub": "V"}]
             out += [{"name": f"{f}:seeded:{i}", "file": f, "mode": "seeded", "n": 9000} for i in range(24)]
             out += [{"name": f"{f}:carrier:{i}", "file": f, "mode": "carrier-all", "i": i, "k": 32} for i in range(32)]
+            out += [{"name": f"{f}:structured:{sub}:{i}", "file": f, "mode": "structured", "sub": sub, "n": None, "i": i, "k": 6} for sub in "ARP" for i in range(6)]
     return out
 
 
@@ -134,7 +136,7 @@ class Runner:
                     return ("violation", f"zone:{exc_key(e)}", f"{nm}({i!r}) raised {type(e).__name__}: {str(e)[:120]}"), (zones, zrej)
         return "ok", (zones, zrej)
 
-    def count_lines(self, b, cap):
+    def count_lines(self, b, cap, want=None):
         """Executed-line count of one attempt (sys.monitoring LINE events), stopping at `cap`."""
         import sys
         mon = sys.monitoring; tool = 3
@@ -146,6 +148,7 @@ class Runner:
         def cb(code, line):
             n[0] += 1
             if n[0] > cap:
+                mon.set_events(tool, 0)      # stop counting first: the cap must be raised exactly once, not again from the clean-up code
                 raise Cap()
         try:
             mon.use_tool_id(tool, "vf-c20")
@@ -155,7 +158,7 @@ class Runner:
         mon.set_events(tool, mon.events.LINE)
         try:
             try:
-                self.attempt(b)
+                self.attempt(b, want)
             except Cap:
                 pass
         finally:
@@ -168,6 +171,8 @@ class Runner:
 
     def run_case(self, b, label, fkey, want=None):
         ctx = self.ctx
+        if getattr(self, "hangs", 0) >= 3:
+            ctx.count("cases_skipped_after_three_hangs"); return      # each hang costs the watchdog time; three witnesses are enough
         ctx.ev(); ctx.counters["cases"] += 1
         t0 = time.time()
         signal.alarm(CASE_ALARM_S)
@@ -181,12 +186,13 @@ class Runner:
             signal.alarm(0)
         case = {"kind": "fault", "file": self.which, "label": label}
         if outcome == "slow":
-            if self.baseline_lines is None:
-                self.baseline_lines = max(1000, self.count_lines(self.intact, 10**9))
-            cap = 50 * self.baseline_lines
-            n = self.count_lines(b, cap)
+            # the wall-clock alarm only triggers the measurement; the verdict is on executed lines, against the SAME operations on the intact file
+            base = max(1000, self.count_lines(self.intact, 10**9, want))
+            cap = 50 * base
+            n = self.count_lines(b, cap, want)
             if n > cap:
-                ctx.V("C20:not-prompt", f"{self.which} fault {label}: executes more than 50x the lines of a full load of the intact file ({n} > {cap}) - treated as a hang", case, n, cap)
+                self.hangs = getattr(self, "hangs", 0) + 1
+                ctx.V("C20:not-prompt", f"{self.which} fault {label}: executes more than 50x the lines the same operations take on the intact file ({n} > {cap}) - treated as a hang", case, n, cap)
             else:
                 ctx.count("slow_but_bounded"); ctx.note(f"case {label} hit the {CASE_ALARM_S}s wall watchdog but is bounded in steps ({n} lines) - not judged on wall time")
             return
@@ -319,6 +325,8 @@ def run(ctx, shard):
                     want = None
             R.run_case(apply_fault(data, label), label, field_at(table, min(pos, n - 1)), want)
         ctx.sample({"file": which, "fault": label})
+    elif mode == "structured":
+        run_structured(ctx, R, data, table, shard["sub"], shard["n"], (shard["i"], shard["k"]) if "i" in shard else None)
     else:
         zfields = [t for t in table if t[0] == 1]
         if mode == "carrier":
@@ -337,6 +345,142 @@ def run(ctx, shard):
                     b = bytearray(cdata); b[p] = v
                     R.run_case(bytes(b), ["C", zf[1], p - zs, v], "zone-header" if p < zb else "zone-body")
         ctx.sample({"file": which, "carrier_zone_field_at": chosen[0][1] if chosen else None, "carrier_bytes": len(cdata) if chosen else 0})
+
+
+def structure(data, table):
+    """Byte positions inside the container by the independent reader: pool strings, alias-map entries, zone-body field spans."""
+    from vf.models import nzd_ref
+    from vf.props.c14 import traced_spans
+    pool_pos = []; pool = []
+    alias = []
+    zones = []
+    for fid, a, b, e in table:
+        if fid == 0 and not pool:
+            r = nzd_ref.R(data); r.i = b; n = r.count()
+            for _ in range(n):
+                ln = r.count(); pool_pos.append((r.i, r.i + ln)); pool.append(data[r.i:r.i + ln].decode("utf-8")); r.i += ln
+        elif fid == 3:
+            r = nzd_ref.R(data); r.i = b; n = r.count()
+            for _ in range(n):
+                ka = r.i; k = r.count(); va = r.i; v = r.count(); alias.append({"key": k, "key_at": (ka, va), "val": v, "val_at": (va, r.i)})
+    for fid, a, b, e in table:
+        if fid == 1:
+            r = nzd_ref.R(data); r.i = b; idx = r.count(); typ = r.byte(); body0 = r.i
+            spans = []
+            if typ == 2:
+                try:
+                    spans = [(k, body0 + x, body0 + y) for k, x, y in traced_spans(data[body0:e], pool)]
+                except Exception:  # noqa: BLE001
+                    spans = []
+            zones.append({"field": (fid, a, b, e), "id_index": idx, "type_at": body0 - 1, "spans": spans})
+    return pool, pool_pos, alias, zones
+
+
+def run_structured(ctx, R, data, table, sub, n, part):
+    """Faults that keep the container well-formed but make its CONTENT inconsistent (still only a few substituted bytes):
+    (A) alias-map entries re-pointed: at another alias (chains), at each other (cycles), at themselves, at a non-zone string, out of the pool;
+    (R) one yearly rule of a zone's tail overwritten, whole or field by field, with its sibling rule's bytes (coinciding / swapped rules);
+    (P) a character of a zone's id or of one of its names replaced by a formatting / control / invalid-UTF-8 byte, together with damage to that zone's body
+        (so that the name reaches whatever message is built)."""
+    rng = ctx.rng
+    pool, pool_pos, alias, zones = structure(data, table)
+    n_ = len(data)
+
+    def vlen(x):
+        return len(varint(x))
+
+    def take(seq, k):
+        seq = list(seq)
+        if part is not None: seq = seq[part[0]::part[1]]
+        return seq if k is None or len(seq) <= k else rng.sample(seq, k)
+    if sub == "A":
+        keys = {e["key"] for e in alias}
+        for e in take(alias, n):
+            same = [o for o in alias if o is not e and vlen(o["key"]) == vlen(e["val"])]
+            targets = []
+            if same:
+                o = rng.choice(same); targets.append(("chain", [(e["val_at"], o["key"])], [e["key"], o["key"], o["val"]]))
+                o2 = rng.choice(same)
+                if vlen(e["key"]) == vlen(o2["val"]):
+                    targets.append(("cycle", [(e["val_at"], o2["key"]), (o2["val_at"], e["key"])], [e["key"], o2["key"]]))
+            if vlen(e["key"]) == vlen(e["val"]):
+                targets.append(("self", [(e["val_at"], e["key"])], [e["key"]]))
+            nz = [i for i in range(len(pool)) if i not in keys and vlen(i) == vlen(e["val"]) and "/" not in pool[i]]
+            if nz: targets.append(("not-a-zone", [(e["val_at"], rng.choice(nz))], [e["key"]]))
+            big = (1 << (7 * vlen(e["val"]))) - 1
+            targets.append(("outside-pool", [(e["val_at"], big)], [e["key"]]))
+            for nm, edits, involved in targets:
+                ps = []; vs = []
+                for (a, b), val in edits:
+                    enc = varint(val)
+                    if len(enc) != b - a: break
+                    ps += list(range(a, b)); vs += list(enc)
+                else:
+                    names = {pool[i] for i in involved if i < len(pool)}
+                    want = (lambda cids, names=names: [c for c in cids if c in names] + list(cids)[:3])
+                    bb = bytearray(data)
+                    for p_, v_ in zip(ps, vs): bb[p_] = v_
+                    ctx.count("structured_alias_faults")
+                    R.run_case(bytes(bb), ["K", ps, vs], f"alias-{nm}", want)
+        ctx.sample({"file": R.which, "fault": "alias-map", "entries": len(alias)})
+    elif sub == "R":
+        tailed = [z for z in zones if any(k.startswith("dst-rule") for k, _, _ in z["spans"])]
+        for z in take(tailed, n):
+            sp = {k: (a, b) for k, a, b in z["spans"] if k.startswith(("std-rule", "dst-rule"))}
+            fields = ["flags", "month", "day", "millis:time-of-day"]
+            edits = []
+            for src, dst in (("std-rule", "dst-rule"), ("dst-rule", "std-rule")):
+                whole = []
+                okw = True
+                for f in fields:
+                    (sa, sb), (da, db) = sp[f"{src}:{f}"], sp[f"{dst}:{f}"]
+                    if sb - sa == db - da:
+                        edits.append((f"{dst}:{f}<-{src}", [(da, data[sa:sb])]))
+                        whole.append((da, data[sa:sb]))
+                    else:
+                        okw = False
+                if okw: edits.append((f"{dst}<-{src}", whole))
+                # month / day of one rule set to every other small value (coincidences with the sibling rule included)
+                (ma, mb) = sp[f"{dst}:month"]
+                if mb - ma == 1:
+                    for mv in range(0, 14):
+                        if mv != data[ma]: edits.append((f"{dst}:month={mv}", [(ma, bytes([mv]))]))
+            for nm, ed in edits:
+                bb = bytearray(data); ps = []; vs = []
+                for at, bs in ed:
+                    bb[at:at + len(bs)] = bs; ps += list(range(at, at + len(bs))); vs += list(bs)
+                if bytes(bb) == data: continue
+                cdata = carrier(bytes(bb), table, z["field"])[0]
+                ctx.count("structured_rule_faults")
+                R.run_case(cdata, ["CK", z["field"][1], ps, vs], "rule-" + nm.split(":")[-1].split("<")[0].split("=")[0])
+        ctx.sample({"file": R.which, "fault": "rule-splice", "zones_with_tail": len(tailed)})
+    else:
+        POISON = [0x7B, 0x7D, 0x25, 0x5C, 0x00, 0x27, 0xFF, 0x0A]
+        for z in take(zones, n):
+            name_idx = {z["id_index"]}
+            r_names = [(a, b) for k, a, b in z["spans"] if k == "name"]
+            from vf.models import nzd_ref
+            for a, b in r_names[:6]:
+                rr = nzd_ref.R(data); rr.i = a; name_idx.add(rr.count())
+            damages = [("type", z["type_at"], 9), ("type", z["type_at"], 0)]
+            tails = [a for k, a, b in z["spans"] if k == "has-tail"]
+            if tails: damages.append(("has-tail", tails[0], 2))
+            months = [a for k, a, b in z["spans"] if k.endswith(":month")]
+            if months: damages.append(("month", months[0], 0x7F))
+            for idx in take(sorted(name_idx), 3):
+                if idx >= len(pool_pos) or pool_pos[idx][0] == pool_pos[idx][1]: continue
+                a, b = pool_pos[idx]
+                for pv in rng.sample(POISON, 3):
+                    at = rng.randrange(a, b)
+                    for dnm, dat, dv in [rng.choice(damages), ("none", None, None)]:
+                        bb = bytearray(data); ps = [at]; vs = [pv]
+                        bb[at] = pv
+                        if dat is not None:
+                            bb[dat] = dv; ps.append(dat); vs.append(dv)
+                        cdata = carrier(bytes(bb), table, z["field"])[0]
+                        ctx.count("structured_name_faults")
+                        R.run_case(cdata, ["CK", z["field"][1], ps, vs], f"name-poison-{pv:02x}+{dnm}")
+        ctx.sample({"file": R.which, "fault": "name-poison", "zones": len(zones)})
 
 
 def replay(ctx, case):
@@ -358,6 +502,11 @@ def replay(ctx, case):
         pat = b"\xff\xff\xff\x7f" if label[3] == 4 else b"\xff\xff\xff\xff\x07"
         b = bytearray(cdata); b[zb + label[2]:zb + label[2] + len(pat)] = pat
         R.run_case(bytes(b), label, "zone")
+    elif label[0] == "CK":
+        zf = next(t for t in table if t[1] == label[1])
+        bb = bytearray(data)
+        for p_, v_ in zip(label[2], label[3]): bb[p_] = v_
+        R.run_case(carrier(bytes(bb), table, zf)[0], label, "zone")
     elif label[0] == "carrier-intact":
         zf = next(t for t in table if t[1] == label[1])
         R.run_case(carrier(data, table, zf)[0], label, "zone")
